@@ -7,6 +7,7 @@ import (
 	"sync/atomic"
 	"syscall"
 	"testing"
+	"time"
 
 	"pgregory.net/rapid"
 
@@ -130,7 +131,12 @@ func TestC14(t *testing.T) {
 		var excluded int
 		cfg := c14Cfg(&excluded)
 		o := gen.Opts(rt, cfg)
+		// now and then a database of several MiB (many copy chunks) copied to a slow writer
+		large := rapid.IntRange(0, 11).Draw(rt, "large") == 0
 		o.InitialMmapSize = 32 << 20 // no remap while the reader is open on this goroutine
+		if large {
+			o.InitialMmapSize = 512 << 20
+		}
 		o.AllocSize = 64 << 10       // keep the file itself small (grow in small chunks)
 		cfg.FixedOpts = &o
 		fail := func(v *drv.Violation) {
@@ -184,6 +190,19 @@ func TestC14(t *testing.T) {
 		if e.DB == nil {
 			return
 		}
+		if large {
+			kb := drv.Lit("zz-large")
+			pre := drv.Lit("L")
+			val := drv.B{S: "L", N: rapid.SampledFrom([]int{60 << 10, 100 << 10, 200 << 10}).Draw(rt, "largeval")}
+			ops := []drv.Op{{Op: drv.OpBeginRW}, {Op: drv.OpCreateINE, Key: &kb},
+				{Op: drv.OpBulkPut, Path: []drv.B{kb}, Key: &pre, From: 0, To: rapid.IntRange(24, 50).Draw(rt, "largekeys"), Val: &val}, {Op: drv.OpCommit}}
+			for _, op := range ops {
+				if v := e.Apply(op); v != nil {
+					fail(v)
+				}
+			}
+			e.Label("several-MiB-database")
+		}
 		// the reader, aged by further transactions
 		if v := e.Apply(drv.Op{Op: drv.OpBeginRO, Tx: 1}); v != nil {
 			fail(v)
@@ -223,14 +242,26 @@ func TestC14(t *testing.T) {
 		}
 		if mode == "writeto" {
 			burst := rapid.IntRange(0, 12).Draw(rt, "burst")
+			if large && burst > 2 {
+				burst = 2 // hundreds of chunks: keep the history (and the map) bounded
+			}
 			if moved {
 				burst = 0 // the harness' own oracles read the file by path
 			}
+			slow := large || rapid.IntRange(0, 9).Draw(rt, "slowwriter") == 0
 			w := &hookWriter{between: func() {
+				if slow {
+					time.Sleep(time.Millisecond) // a destination slower than reading from the page cache
+				}
 				for i := 0; i < burst; i++ {
 					step()
 				}
 			}}
+			if slow {
+				bop.From = 1
+				e.Log[len(e.Log)-1] = bop
+				e.Label("slow-writer")
+			}
 			var err error
 			n, err = R.WriteTo(w)
 			restore()
@@ -256,6 +287,13 @@ func TestC14(t *testing.T) {
 			}
 			img, _ = os.ReadFile(dst)
 			n = int64(len(img))
+		}
+		if e.ROTx(1) != R {
+			// the harness itself closed the reader (a remap was announced while it was open on this goroutine):
+			// what was copied after that moment is not a snapshot of anything - not a case
+			e.Label("reader-closed-for-remap-during-copy")
+			col.Count("cases_dropped_reader_closed_for_remap", 1)
+			return
 		}
 		if v := c14CheckCopy(img, n, size, rid, want, mode); v != nil {
 			fail(v)
@@ -378,7 +416,11 @@ func replayC14(t *testing.T, d replayDoc) *drv.Violation {
 			pos := 0
 			w := &hookWriter{}
 			var hv *drv.Violation
+			slowW := op.From == 1
 			w.between = func() {
+				if slowW {
+					time.Sleep(time.Millisecond)
+				}
 				// replay the remaining ops spread over the chunks (same order, interleaving approximated)
 				for k := 0; k < 4 && pos < len(rest) && hv == nil; k++ {
 					if rest[pos].Op == drv.OpCloseRO {
